@@ -1,5 +1,6 @@
 import ChessVerif.Lemmas.TryFrom
 import ChessVerif.Lemmas.GeomBridge1
+import ChessVerif.Model.Text
 /-!
 Lemmas for C07: what `Board::is_sane` / `Board::try_from` guarantee, read on the abstract position
 (`Board.abs`), and the capacity bound of the move list (`MoveGen.enumerate` yields at most 18 entries).
@@ -126,15 +127,17 @@ theorem and_eq_zero_bit {x y : BB} (h : x &&& y = 0#64) (i : Nat) (hx : x.getLsb
   rw [BitVec.getLsbD_and, hx, Bool.true_and] at this
   exact this
 
-/-- `is_sane` checks three of the four `Struct` clauses; it does **not** check `white | black = combined` -/
-theorem SaneFacts.struct_of_comb_color {T : Tables} {b : Board} (h : SaneFacts T b)
+/-- `Struct` from equalities between the bitboards -/
+theorem Struct.of_eqs {b : Board} (h1 : ∀ x y : Piece, x ≠ y → b.pieces x &&& b.pieces y = 0#64)
+    (h2 : b.white &&& b.black = 0#64)
+    (h3 : 0#64 ||| b.pawns ||| b.knights ||| b.bishops ||| b.rooks ||| b.queens ||| b.kings = b.combined)
     (hc : ∀ i, b.combined.getLsbD i = (b.white.getLsbD i || b.black.getLsbD i)) : Struct b where
-  piece_disj := fun i x y hxy hx => and_eq_zero_bit (h.pieces_disj x y hxy) i hx
-  color_disj := fun i hw => and_eq_zero_bit h.colors_disj i hw
+  piece_disj := fun i x y hxy hx => and_eq_zero_bit (h1 x y hxy) i hx
+  color_disj := fun i hw => and_eq_zero_bit h2 i hw
   comb_color := hc
   comb_piece := by
     intro i
-    rw [← h.union]
+    rw [← h3]
     simp only [BitVec.getLsbD_or, BitVec.getLsbD_zero, Bool.false_or, Bool.or_eq_true]
     constructor
     · rintro (((((hp | hp) | hp) | hp) | hp) | hp)
@@ -146,6 +149,17 @@ theorem SaneFacts.struct_of_comb_color {T : Tables} {b : Board} (h : SaneFacts T
       · exact ⟨.king, hp⟩
     · rintro ⟨p, hp⟩
       cases p <;> simp only [Board.pbit, Board.pieces] at hp <;> simp [hp]
+
+theorem Struct.of_eqs' {b : Board} (h1 : ∀ x y : Piece, x ≠ y → b.pieces x &&& b.pieces y = 0#64)
+    (h2 : b.white &&& b.black = 0#64)
+    (h3 : 0#64 ||| b.pawns ||| b.knights ||| b.bishops ||| b.rooks ||| b.queens ||| b.kings = b.combined)
+    (hc : b.white ||| b.black = b.combined) : Struct b :=
+  Struct.of_eqs h1 h2 h3 (fun i => by rw [← hc, BitVec.getLsbD_or])
+
+/-- `is_sane` checks three of the four `Struct` clauses; it does **not** check `white | black = combined` -/
+theorem SaneFacts.struct_of_comb_color {T : Tables} {b : Board} (h : SaneFacts T b)
+    (hc : ∀ i, b.combined.getLsbD i = (b.white.getLsbD i || b.black.getLsbD i)) : Struct b :=
+  Struct.of_eqs h.pieces_disj h.colors_disj h.union hc
 
 theorem isSane_struct_of_comb_color {T : Tables} {b : Board} (h : b.isSane T = true)
     (hc : ∀ i, b.combined.getLsbD i = (b.white.getLsbD i || b.black.getLsbD i)) : Struct b :=
@@ -493,5 +507,380 @@ theorem enumerate_length {T : Tables} (hT : TablesOK T) {b : Board} (hs : Struct
     · exact Nat.le_trans (legalsKing_length T true [] b _) (by decide)
 
 end MoveGen
+
+/-! ### text entry point, and the `unwrap` inside the en-passant test -/
+
+theorem parseBoard_ne_panic (T : Tables) (s : List Char) (h : parseBuilder s ≠ .panic) : parseBoard T s ≠ .panic := by
+  unfold parseBoard
+  cases hb : parseBuilder s with
+  | err => simp
+  | panic => exact absurd hb h
+  | ok bd =>
+    simp only
+    cases Board.tryFrom T bd <;> simp
+
+theorem parseBoard_ok_iff (T : Tables) (s : List Char) (b : Board) :
+    parseBoard T s = .ok b ↔ ∃ bd, parseBuilder s = .ok bd ∧ Board.tryFrom T bd = some b := by
+  unfold parseBoard
+  cases hb : parseBuilder s with
+  | err => simp
+  | panic => simp
+  | ok bd =>
+    simp only
+    cases ht : Board.tryFrom T bd with
+    | none => simp [ht]
+    | some b' => simp [ht]
+
+theorem legalEpMove_isSome (T : Tables) (b : Board) (s d : Sq) (h : b.ep.isSome = true) :
+    (MoveGen.legalEpMove T b s d).isSome = true := by
+  unfold MoveGen.legalEpMove
+  cases hep : b.ep with
+  | none => rw [hep] at h; cases h
+  | some e =>
+    simp only
+    split
+    · rfl
+    · split <;> rfl
+
+/-- the model's fourth rank is the Spec's "double-push rank" -/
+theorem fourthRank_spec (c : Color) (q : Sq) (h : q.getRank = c.fourthRank) : q.rank = c.pawnRank + 2 * c.fwd := by
+  have hv : q.getRank.val = c.fourthRank.val := by rw [h]
+  unfold Sq.getRank at hv
+  unfold Sq.rank
+  cases c <;> simp only [Color.fourthRank, Color.pawnRank, Color.homeRank, Color.fwd] at hv ⊢ <;> omega
+
+/-! ### the converse: `is_sane` from its clauses -/
+
+theorem isSane_of_facts {T : Tables} {b : Board} (hf : SaneFacts T b) : b.isSane T = true := by
+  unfold Board.isSane
+  simp only [Bool.and_eq_true]
+  refine ⟨⟨⟨⟨⟨⟨⟨⟨⟨?_, ?_⟩, ?_⟩, ?_⟩, ?_⟩, ?_⟩, ?_⟩, ?_⟩, ?_⟩, ?_⟩
+  · rw [List.all_eq_true]
+    intro x _
+    rw [List.all_eq_true]
+    intro y _
+    by_cases hxy : x = y
+    · simp [hxy]
+    · simp [hf.pieces_disj x y hxy]
+  · rw [beq_iff_eq]; exact hf.colors_disj
+  · rw [beq_iff_eq]; exact hf.union
+  · rw [beq_iff_eq]; exact hf.wking
+  · rw [beq_iff_eq]; exact hf.bking
+  · have h1 := hf.wmen
+    have h2 := hf.bmen
+    simp only [gt_iff_lt, Bool.not_eq_true', Bool.or_eq_false_iff, decide_eq_false_iff_not]
+    omega
+  · cases hep : b.ep with
+    | none => rfl
+    | some x =>
+      simp only [bne_iff_ne]
+      exact hf.ep x hep
+  · rw [beq_iff_eq]; exact hf.nocheck
+  · rw [List.all_eq_true]
+    intro c _
+    simp only [Bool.and_eq_true, Bool.or_eq_true, beq_iff_eq]
+    exact ⟨hf.rooks c, hf.kinghome c⟩
+  · rw [beq_iff_eq]; exact hf.kings_apart
+
+theorem isSane_iff_facts {T : Tables} {b : Board} : b.isSane T = true ↔ SaneFacts T b :=
+  ⟨isSane_facts, isSane_of_facts⟩
+
+/-! ### completeness of acceptance, modulo the check-detection clauses -/
+
+theorem Struct.pieces_and_eq_zero {b : Board} (h : Struct b) (x y : Piece) (hxy : x ≠ y) :
+    b.pieces x &&& b.pieces y = 0#64 := by
+  apply BitVec.eq_of_getLsbD_eq
+  intro i _
+  rw [BitVec.getLsbD_and, BitVec.getLsbD_zero]
+  cases hx : (b.pieces x).getLsbD i with
+  | false => rfl
+  | true => rw [Bool.true_and]; exact h.piece_disj i x y hxy hx
+
+theorem Struct.colors_and_eq_zero {b : Board} (h : Struct b) : b.white &&& b.black = 0#64 := by
+  apply BitVec.eq_of_getLsbD_eq
+  intro i _
+  rw [BitVec.getLsbD_and, BitVec.getLsbD_zero]
+  cases hx : b.white.getLsbD i with
+  | false => rfl
+  | true => rw [Bool.true_and]; exact h.color_disj i hx
+
+theorem Struct.union_eq {b : Board} (h : Struct b) :
+    0#64 ||| b.pawns ||| b.knights ||| b.bishops ||| b.rooks ||| b.queens ||| b.kings = b.combined := by
+  apply BitVec.eq_of_getLsbD_eq
+  intro i _
+  rw [Bool.eq_iff_iff, h.comb_piece]
+  simp only [BitVec.getLsbD_or, BitVec.getLsbD_zero, Bool.false_or, Bool.or_eq_true]
+  constructor
+  · rintro (((((hp | hp) | hp) | hp) | hp) | hp)
+    · exact ⟨.pawn, hp⟩
+    · exact ⟨.knight, hp⟩
+    · exact ⟨.bishop, hp⟩
+    · exact ⟨.rook, hp⟩
+    · exact ⟨.queen, hp⟩
+    · exact ⟨.king, hp⟩
+  · rintro ⟨p, hp⟩
+    cases p <;> simp only [Board.pbit, Board.pieces] at hp <;> simp [hp]
+
+theorem unmovedRooks_bit_imp (cr : CastleRights) (c : Color) (i : Nat) (h : (cr.unmovedRooks c).getLsbD i = true) :
+    (cr.ks = true ∧ i = (mkSq c.backrank 7).val) ∨ (cr.qs = true ∧ i = (mkSq c.backrank 0).val) := by
+  unfold CastleRights.unmovedRooks BB.set at h
+  cases hk : cr.ks <;> cases hq : cr.qs <;> rw [hk, hq] at h <;> simp only at h
+  · rw [BitVec.getLsbD_zero] at h; cases h
+  · rw [BB.getLsbD_ofSq] at h; exact .inr ⟨rfl, of_decide_eq_true h⟩
+  · rw [BB.getLsbD_ofSq] at h; exact .inl ⟨rfl, of_decide_eq_true h⟩
+  · rw [BitVec.getLsbD_xor, BB.getLsbD_ofSq, BB.getLsbD_ofSq] at h
+    by_cases h0 : i = (mkSq c.backrank 0).val
+    · exact .inr ⟨rfl, h0⟩
+    · rw [decide_eq_false h0, Bool.false_xor] at h
+      exact .inl ⟨rfl, of_decide_eq_true h⟩
+
+theorem and_eq_self_of_bits {u x : BB} (h : ∀ i, u.getLsbD i = true → x.getLsbD i = true) : u &&& x = u := by
+  apply BitVec.eq_of_getLsbD_eq
+  intro i _
+  rw [BitVec.getLsbD_and]
+  cases hu : u.getLsbD i with
+  | false => rfl
+  | true => rw [h i hu]; rfl
+
+/-- a one-element bitboard is the single-square board of any of its members -/
+theorem eq_ofSq_of_popcnt_one {x : BB} (h : x.popcnt = 1) (s : Sq) (hs : x.getLsbD s.val = true) : x = BB.ofSq s := by
+  have e := BB.ofSq_toSq x h
+  rw [← e] at hs
+  rw [BB.getLsbD_ofSq] at hs
+  have : s = x.toSq := Fin.ext (of_decide_eq_true hs)
+  rw [this, e]
+
+theorem files_and_ranks {T : Tables} (hT : TablesOK T) (r : Fin 8) :
+    T.files 4 &&& T.ranks r = BB.ofSq (mkSq r 4) := by
+  apply BitVec.eq_of_getLsbD_eq
+  intro i hi
+  have := mem_files 4 ⟨i, hi⟩
+  have h2 := mem_ranks r ⟨i, hi⟩
+  simp only at this h2
+  rw [hT.files, hT.ranks, BitVec.getLsbD_and, this, h2, BB.getLsbD_ofSq, Bool.eq_iff_iff]
+  rw [Bool.and_eq_true, beq_iff_eq, beq_iff_eq, decide_eq_true_eq]
+  show i % 8 = 4 ∧ i / 8 = r.val ↔ i = r.val * 8 + 4
+  have := r.isLt
+  omega
+
+/-- the two clauses of `is_sane` that concern check detection: what remains to be linked to the rules -/
+def CheckClauses (T : Tables) (b : Board) : Prop :=
+  (Board.updatePinInfo T { b with stm := b.stm.other }).checkers = 0#64 ∧
+  T.king (b.kingSquare .white) &&& b.kings = 0#64
+
+theorem count_congr {p q : Pos} (h : p.board = q.board) (f : Piece × Color → Bool) : count p f = count q f := by
+  unfold count; rw [h]
+
+/-- the clauses of `Valid` used for acceptance -/
+theorem Valid_clauses {p : Pos} (h : Valid p = true) :
+    (∀ c, count p (· == (.king, c)) = 1 ∧ count p (·.2 == c) ≤ 16 ∧
+      (p.castleK c = true → (homeSq c 4).any (p.has · .king c) = true ∧ (homeSq c 7).any (p.has · .rook c) = true) ∧
+      (p.castleQ c = true → (homeSq c 4).any (p.has · .king c) = true ∧ (homeSq c 0).any (p.has · .rook c) = true)) ∧
+    (∀ q, p.ep = some q → p.has q .pawn p.stm.other = true ∧ q.rank = p.stm.other.pawnRank + 2 * p.stm.other.fwd) := by
+  unfold Valid at h
+  simp only [Bool.and_eq_true, List.all_eq_true] at h
+  obtain ⟨⟨⟨h1, _⟩, _⟩, h4⟩ := h
+  constructor
+  · intro c
+    have := h1 c (by cases c <;> simp)
+    simp only [Bool.and_eq_true, beq_iff_eq, decide_eq_true_eq, Bool.or_eq_true, Bool.not_eq_true'] at this
+    obtain ⟨⟨⟨⟨a1, a2⟩, _⟩, a4⟩, a5⟩ := this
+    refine ⟨a1, a2, ?_, ?_⟩
+    · intro hk
+      rcases a4 with a4 | a4
+      · rw [hk] at a4; cases a4
+      · exact a4
+    · intro hq
+      rcases a5 with a5 | a5
+      · rw [hq] at a5; cases a5
+      · exact a5
+  · intro q hq
+    unfold epValid at h4
+    rw [hq] at h4
+    simp only [Bool.and_eq_true, beq_iff_eq] at h4
+    exact ⟨h4.1.1, h4.1.2⟩
+
+theorem fourthRank_of_spec (c : Color) (q : Sq) (h : q.rank = c.pawnRank + 2 * c.fwd) : q.getRank = c.fourthRank := by
+  apply Fin.ext
+  unfold Sq.rank at h
+  unfold Sq.getRank
+  cases c <;> simp only [Color.fourthRank, Color.pawnRank, Color.homeRank, Color.fwd] at h ⊢ <;> omega
+
+theorem sane_mkSq_getRank_getFile (q : Sq) : mkSq q.getRank q.getFile = q := by
+  apply Fin.ext
+  unfold mkSq Sq.getRank Sq.getFile
+  simp only
+  omega
+
+theorem sane_ne_zero_iff_exists_sq (x : BB) : x ≠ 0#64 ↔ ∃ s : Sq, x.getLsbD s.val = true := by
+  constructor
+  · intro h
+    obtain ⟨i, hi, hb⟩ := BB.exists_bit_of_ne_zero x h
+    exact ⟨⟨i, hi⟩, hb⟩
+  · rintro ⟨s, hs⟩
+    exact BB.ne_zero_of_getLsbD x s.val hs
+
+/-- the test of `set_ep` read on the contents: a pawn of colour `o` stands beside `D` -/
+theorem sane_adjTest_iff {T : Tables} (hT : TablesOK T) {r : Board} (hr : Struct r) (D : Sq) (o : Color) :
+    (T.adjFiles D.getFile &&& T.ranks D.getRank &&& r.pawns &&& r.colorCombined o ≠ 0#64) ↔
+      ∃ s : Sq, s.rank = D.rank ∧ (s.file - D.file).natAbs = 1 ∧ r.content s = some (.pawn, o) := by
+  rw [sane_ne_zero_iff_exists_sq]
+  apply exists_congr
+  intro s
+  rw [hr.content_some_iff, hT.adjFiles, hT.ranks]
+  simp only [BitVec.getLsbD_and, mem_adjFiles, mem_ranks, Bool.and_eq_true, beq_iff_eq]
+  have h1 : (s.rankN = D.getRank.val) ↔ s.rank = D.rank := by
+    unfold Sq.rankN Sq.getRank Sq.rank; simp only; omega
+  have h2 : ((D.getFile.val : Int)) = D.file := rfl
+  rw [h1, h2]
+  constructor
+  · rintro ⟨⟨⟨a, b⟩, c⟩, d⟩; exact ⟨b, a, c, d⟩
+  · rintro ⟨b, a, c, d⟩; exact ⟨⟨⟨a, b⟩, c⟩, d⟩
+
+theorem Pos.toBuilder_getEnPassant_eq {p : Pos}
+    (E : ∀ q, p.ep = some q → q.rank = p.stm.other.pawnRank + 2 * p.stm.other.fwd) :
+    p.toBuilder.getEnPassant = p.ep := by
+  unfold Builder.getEnPassant Pos.toBuilder
+  simp only
+  cases hq : p.ep with
+  | none => rfl
+  | some q =>
+    simp only [Option.map_some]
+    rw [← fourthRank_of_spec _ q (E q hq), sane_mkSq_getRank_getFile]
+
+theorem has_bits_of_content {b : Board} (hs : Struct b) {p : Pos} (hcont : b.content = p.board) (s : Sq) (pc : Piece)
+    (c : Color) (h : p.has s pc c = true) : (b.pieces pc &&& b.colorCombined c).getLsbD s.val = true := by
+  rw [← hs.has_iff]
+  unfold Pos.has at h ⊢
+  rw [abs_board, hcont]
+  exact h
+
+/-- the candidate board built from a valid position passes every clause of `is_sane`, given the two
+check-detection clauses -/
+theorem tryFromPre_facts_of_valid {T : Tables} (hT : TablesOK T) {p : Pos} (hv : Valid p = true)
+    (hc : CheckClauses T (tryFromPre T p.toBuilder)) : SaneFacts T (tryFromPre T p.toBuilder) := by
+  obtain ⟨V, E⟩ := Valid_clauses hv
+  obtain ⟨hcore, hcont, hstm, hwcr, hbcr, hep, _⟩ := tryFromPre_spec T p.toBuilder
+  have hs := hcore.toStruct
+  have hcont' : (tryFromPre T p.toBuilder).content = p.board := hcont
+  have habs : (tryFromPre T p.toBuilder).abs.board = p.board := by rw [abs_board]; exact hcont'
+  have hbits := has_bits_of_content hs hcont'
+  have hK : ∀ c, ((tryFromPre T p.toBuilder).castleRights c).ks = p.castleK c := by
+    intro c; cases c
+    · show (tryFromPre T p.toBuilder).wcr.ks = _; rw [hwcr]; rfl
+    · show (tryFromPre T p.toBuilder).bcr.ks = _; rw [hbcr]; rfl
+  have hQ : ∀ c, ((tryFromPre T p.toBuilder).castleRights c).qs = p.castleQ c := by
+    intro c; cases c
+    · show (tryFromPre T p.toBuilder).wcr.qs = _; rw [hwcr]; rfl
+    · show (tryFromPre T p.toBuilder).bcr.qs = _; rw [hbcr]; rfl
+  have hking : ∀ c, ((tryFromPre T p.toBuilder).kings &&& (tryFromPre T p.toBuilder).colorCombined c).popcnt = 1 := by
+    intro c
+    have := hs.count_piece_color .king c
+    rw [count_congr habs] at this
+    exact this.symm.trans (V c).1
+  have hmen : ∀ c, ((tryFromPre T p.toBuilder).colorCombined c).popcnt ≤ 16 := by
+    intro c
+    have := hs.count_color c
+    rw [count_congr habs] at this
+    rw [← this]; exact (V c).2.1
+  refine ⟨hs.pieces_and_eq_zero, hs.colors_and_eq_zero, hs.union_eq, hking .white, hking .black,
+    hmen .white, hmen .black, ?_, hc.1, ?_, ?_, hc.2⟩
+  · intro x hx
+    rw [hep, Pos.toBuilder_getEnPassant_eq (fun q hq => (E q hq).2)] at hx
+    cases hq : p.ep with
+    | none => rw [hq] at hx; cases hx
+    | some q =>
+      rw [hq] at hx
+      simp only at hx
+      split at hx
+      · injection hx with hx
+        subst hx
+        rw [and_ofSq_ne_zero_iff]
+        have hstm' : (tryFromPre T p.toBuilder).stm = p.stm := hstm
+        rw [hstm']
+        exact hbits q .pawn p.stm.other (E q hq).1
+      · cases hx
+  · intro c
+    rw [BitVec.and_assoc]
+    apply and_eq_self_of_bits
+    intro i hi
+    rcases unmovedRooks_bit_imp _ c i hi with ⟨hk, rfl⟩ | ⟨hq, rfl⟩
+    · rw [hK] at hk
+      have := ((V c).2.2.1 hk).2
+      rw [homeSq_rook_h, Option.any_some] at this
+      exact hbits _ .rook c this
+    · rw [hQ] at hq
+      have := ((V c).2.2.2 hq).2
+      rw [homeSq_rook_a, Option.any_some] at this
+      exact hbits _ .rook c this
+  · intro c
+    by_cases hn : (tryFromPre T p.toBuilder).castleRights c = .noRights
+    · exact .inl hn
+    · right
+      have hkq : p.castleK c = true ∨ p.castleQ c = true := by
+        rw [← hK, ← hQ]
+        cases hk : ((tryFromPre T p.toBuilder).castleRights c).ks with
+        | true => exact .inl rfl
+        | false =>
+          cases hq : ((tryFromPre T p.toBuilder).castleRights c).qs with
+          | true => exact .inr rfl
+          | false =>
+            exfalso; apply hn
+            rw [← castleRights_eta, hk, hq]; rfl
+      have hhome : p.has (mkSq c.backrank 4) .king c = true := by
+        rcases hkq with hk | hq
+        · have := ((V c).2.2.1 hk).1
+          rw [homeSq_king, Option.any_some] at this; exact this
+        · have := ((V c).2.2.2 hq).1
+          rw [homeSq_king, Option.any_some] at this; exact this
+      rw [files_and_ranks hT]
+      exact eq_ofSq_of_popcnt_one (hking c) _ (hbits _ .king c hhome)
+
+/-- **completeness modulo check detection**: a valid position whose candidate board passes the two
+check-detection clauses of `is_sane` is accepted, and the accepted board describes `norm p` -/
+theorem tryFrom_complete_partial {T : Tables} (hT : TablesOK T) {p : Pos} (hv : Valid p = true)
+    (hc : CheckClauses T (tryFromPre T p.toBuilder)) :
+    ∃ b, Board.tryFrom T p.toBuilder = some b ∧
+      b.abs.board = (norm p).board ∧ b.abs.stm = (norm p).stm ∧
+      (∀ c, b.abs.castleK c = (norm p).castleK c) ∧ (∀ c, b.abs.castleQ c = (norm p).castleQ c) ∧
+      b.abs.ep = (norm p).ep := by
+  have hsane := isSane_of_facts (tryFromPre_facts_of_valid hT hv hc)
+  obtain ⟨_, E⟩ := Valid_clauses hv
+  obtain ⟨hcore, hcont, hstm, hwcr, hbcr, hep, _⟩ := tryFromPre_spec T p.toBuilder
+  have hs := hcore.toStruct
+  have hcont' : (tryFromPre T p.toBuilder).content = p.board := hcont
+  have hstm' : (tryFromPre T p.toBuilder).stm = p.stm := hstm
+  refine ⟨tryFromPre T p.toBuilder, by rw [tryFrom_eq, if_pos hsane], ?_, hstm, ?_, ?_, ?_⟩
+  · rw [abs_board]; exact hcont'
+  · intro c; cases c
+    · show (tryFromPre T p.toBuilder).wcr.ks = _; rw [hwcr]; rfl
+    · show (tryFromPre T p.toBuilder).bcr.ks = _; rw [hbcr]; rfl
+  · intro c; cases c
+    · show (tryFromPre T p.toBuilder).wcr.qs = _; rw [hwcr]; rfl
+    · show (tryFromPre T p.toBuilder).bcr.qs = _; rw [hbcr]; rfl
+  · show (tryFromPre T p.toBuilder).ep = (norm p).ep
+    rw [hep, Pos.toBuilder_getEnPassant_eq (fun q hq => (E q hq).2)]
+    unfold norm
+    simp only
+    cases hq : p.ep with
+    | none => rfl
+    | some q =>
+      simp only
+      have hiff : (T.adjFiles q.getFile &&& T.ranks q.getRank &&& (tryFromPre T p.toBuilder).pawns &&&
+            (tryFromPre T p.toBuilder).colorCombined (tryFromPre T p.toBuilder).stm ≠ 0#64) ↔
+          (allSq.any (fun s => s.rank == q.rank && (s.file - q.file).natAbs == 1 && p.has s .pawn p.stm)) = true := by
+        rw [sane_adjTest_iff hT hs, hstm', hcont', List.any_eq_true]
+        constructor
+        · rintro ⟨s, h1, h2, h3⟩
+          refine ⟨s, mem_allSq s, ?_⟩
+          unfold Pos.has
+          simp [h1, h2, h3]
+        · rintro ⟨s, _, h⟩
+          unfold Pos.has at h
+          simp only [Bool.and_eq_true, beq_iff_eq] at h
+          exact ⟨s, h.1.1, h.1.2, h.2⟩
+      by_cases hany : (allSq.any (fun s => s.rank == q.rank && (s.file - q.file).natAbs == 1 && p.has s .pawn p.stm)) = true
+      · rw [if_pos (hiff.mpr hany), if_pos hany]
+      · rw [if_neg (fun h => hany (hiff.mp h)), if_neg hany]
 
 end Chess
